@@ -45,6 +45,7 @@ type loopInfo struct {
 	ordinal int // 1-based, source order
 	body    map[*ssa.BasicBlock]bool
 	entrySt *State // state right after havoc at head
+	preSt   *State // state on loop entry, before the havoc (for pre(e) in invariants)
 	phiVals map[*ssa.Phi]*Val
 }
 
@@ -352,6 +353,7 @@ func (fr *Frame) loopHead(li *loopInfo, st *State, reach *Term, preds []*ssa.Bas
 		}
 		entryPhi[phi] = fr.joinVals(phi.Name()+"_in", phi.Type(), vs, conds)
 	}
+	li.preSt = st.clone()
 	invs := fr.invariants(li)
 	if len(invs) == 0 && fr.contract != nil && !fr.contract.Trusted {
 		c.notes = append(c.notes, fmt.Sprintf("%s: loop#%d has no invariant (state after the loop is only constrained by the exit condition)", fr.fn.String(), li.ordinal))
@@ -473,6 +475,11 @@ func (fr *Frame) envAt(b *ssa.BasicBlock, st *State, override map[ssa.Value]*Val
 	env.frame = fr
 	env.blk = b
 	env.override = override
+	if b != nil {
+		if li := fr.loops[b]; li != nil {
+			env.pre = li.preSt
+		}
+	}
 	return env
 }
 
